@@ -268,3 +268,87 @@ func writeKzg(repoRoot, srcRoot, verifRoot string, check bool) int {
 	}
 	return stale
 }
+
+// ---------------- G2 decoders ----------------
+
+type g2MarshalCfg struct {
+	Pkg  string
+	Kind string // "fp" (coordinates in the base field: the G1 template applies) or "ext"
+	K    int    // extension degree (number of base-field coordinates per point coordinate)
+}
+
+func g2MarshalCfgs(srcRoot string) []g2MarshalCfg {
+	var out []g2MarshalCfg
+	for _, pk := range marshalPkgs(srcRoot) {
+		rel := strings.TrimPrefix(pk, "./")
+		b, err := os.ReadFile(filepath.Join(srcRoot, rel, "marshal.go"))
+		if err != nil {
+			continue
+		}
+		src := string(b)
+		i := strings.Index(src, "\nfunc (p *G2Affine) setBytes(")
+		if i < 0 {
+			continue
+		}
+		body := src[i+1:]
+		if j := strings.Index(body, "\nfunc "); j > 0 {
+			body = body[:j]
+		}
+		n := strings.Count(body, ".SetBytesCanonical(")
+		switch {
+		case strings.Contains(body, "p.X.SetBytesCanonical("):
+			out = append(out, g2MarshalCfg{Pkg: pk, Kind: "fp", K: 1})
+		case n%3 == 0 && n > 0:
+			// raw: 2k decodes, compressed: k decodes
+			out = append(out, g2MarshalCfg{Pkg: pk, Kind: "ext", K: n / 3})
+		}
+	}
+	return out
+}
+
+func writeMarshalG2(repoRoot, srcRoot, verifRoot string, check bool) int {
+	g1t, err1 := os.ReadFile(filepath.Join(verifRoot, "contracts", "marshal", "marshal.go.tmpl"))
+	ext, err2 := os.ReadFile(filepath.Join(verifRoot, "contracts", "marshal", "marshal_g2ext.go.tmpl"))
+	if err1 != nil || err2 != nil {
+		return 0
+	}
+	stale := 0
+	for _, c := range g2MarshalCfgs(srcRoot) {
+		rel := strings.TrimPrefix(c.Pkg, "./")
+		src, _ := os.ReadFile(filepath.Join(srcRoot, rel, "marshal.go"))
+		pkg := ""
+		fmt.Sscanf(after(string(src), "\npackage "), "%s", &pkg)
+		mask3 := strings.Contains(string(src), "mUncompressedInfinity")
+		var s string
+		if c.Kind == "fp" {
+			s = applySections(string(g1t), map[string]bool{"MASK3": mask3, "MASK2": !mask3, "HASISZEROED": false})
+			s = strings.ReplaceAll(s, "PKG", pkg)
+			s = strings.ReplaceAll(s, "POINT", "G2")
+			s = strings.ReplaceAll(s, "COORD", "fp.Element")
+			s = strings.ReplaceAll(s, "SIZEC", "SizeOfG2AffineCompressed")
+			s = strings.ReplaceAll(s, "SIZEU", "SizeOfG2AffineUncompressed")
+			s = strings.ReplaceAll(s, "BCOEFF", "bTwistCurveCoeff")
+		} else {
+			s = applySections(string(ext), map[string]bool{"MASK3": mask3, "MASK2": !mask3})
+			var ghosts, cuts, raw, comp []string
+			// on a path, the raw branch makes 2k decodes and the compressed branch k decodes: the k-th call on the path
+			for i := 1; i <= 2*c.K; i++ {
+				ghosts = append(ghosts, fmt.Sprintf("//@ ghost canon%d = false", i))
+				cuts = append(cuts, fmt.Sprintf("//@ cut after call SetBytesCanonical #%d\n//@ + ghost canon%d = isnil(callresult)", i, i))
+				raw = append(raw, fmt.Sprintf("canon%d", i))
+				if i <= c.K {
+					comp = append(comp, fmt.Sprintf("canon%d", i))
+				}
+			}
+			s = strings.ReplaceAll(s, "GHOSTS", strings.Join(ghosts, "\n"))
+			s = strings.ReplaceAll(s, "CUTS", strings.Join(cuts, "\n"))
+			s = strings.ReplaceAll(s, "RAWCANON", strings.Join(raw, " && "))
+			s = strings.ReplaceAll(s, "COMPCANON", strings.Join(comp, " && "))
+			s = strings.ReplaceAll(s, "NRAW", fmt.Sprint(2*c.K))
+			s = strings.ReplaceAll(s, "NCOMP", fmt.Sprint(c.K))
+			s = strings.ReplaceAll(s, "PKG", pkg)
+		}
+		stale += installText(filepath.Join(repoRoot, rel, "zz_verif_contracts_marshalg2.go"), s, check)
+	}
+	return stale
+}
